@@ -101,6 +101,11 @@ def answers(est, T, under, inside=(), c=1.0):
                 out["underdetermined"] = (np.asarray(X, dtype=float), np.asarray(Bp, dtype=float))
             except Exception as e:  # noqa
                 out["underdetermined"] = e
+            try:
+                X, Bp, _ = est.minimize_variance(T[inside], l2_eps=1e-4 * c, solver="CLARABEL")
+                out["min-variance"] = (np.asarray(X, dtype=float), np.asarray(Bp, dtype=float))
+            except Exception as e:  # noqa
+                out["min-variance"] = e
     return out
 
 
@@ -185,7 +190,7 @@ def run_unit(unit, rec):
                 dev = d / float(np.max(hi_f - lo))
                 if d > 1e-7 * np.max(hi_f - lo):
                     bad = ("b", "requested spaced solutions of the twin are not the base solutions divided by s (s=%g, c=%g, max dev %.3g)" % (s, c, d))
-            elif q == "underdetermined":
+            elif q in ("underdetermined", "min-variance"):
                 Xb, Pb = b0
                 Xt, Pt = g
                 dP = float(np.max(np.abs(Pt / c - Pb)))
@@ -193,9 +198,9 @@ def run_unit(unit, rec):
                 dev = dP / ext
                 # both twins were allowed the same capture error (1e-4 in base units); minimum-norm solutions move by at most that error / smallest singular value
                 if dP > 4e-4:
-                    bad = ("d", "underdetermined fit: predicted captures of the twin are not the base predictions times c (s=%g, c=%g, max dev %.4g)" % (s, c, dP))
+                    bad = ("d", "%s fit: predicted captures of the twin are not the base predictions times c (s=%g, c=%g, max dev %.4g)" % (q, s, c, dP))
                 elif dX > 4e-4 / smin + 1e-4 * np.max(hi_f - lo):
-                    bad = ("c", "underdetermined fit: minimum-norm intensities of the twin are not the base intensities divided by s (s=%g, c=%g, max dev %.4g)" % (s, c, dX))
+                    bad = ("c", "%s fit: the selected intensities of the twin are not the base intensities divided by s (s=%g, c=%g, max dev %.4g)" % (q, s, c, dX))
             else:
                 Xb, Pb = b0
                 Xt, Pt = g
